@@ -8,7 +8,7 @@
 (* EmitInv prints every (shape, expression) as a case for the replayer.     *)
 EXTENDS Revset, TLC, Json
 
-CONSTANTS Shapes, MaxDepth, Small, Bug
+CONSTANTS Shapes, MaxDepth, Small, Focus, Bug
 
 VARIABLES g, e, d
 vars == <<g, e, d>>
@@ -16,31 +16,48 @@ vars == <<g, e, d>>
 (* shape 1: diamond with a tail and a hidden child; shape 2: criss-cross    *)
 (* with an octopus merge and a hidden branch; shape 3: two visible heads,   *)
 (* the merge of both hidden                                                 *)
+(* shapes 4 and 5 (Focus): commits are written in id order, so index        *)
+(* position = id; a long branch is written BEFORE a short one from the same *)
+(* base, i.e. position order and generation order disagree (4: two branches *)
+(* from the root; 5: long and short branch from commit 1, merged)           *)
 ShapePar(s) ==
-  IF s = 1 THEN << <<0>>, <<1>>, <<1>>, <<2, 3>>, <<4>>, <<3>> >>
+  IF s = 4 THEN << <<0>>, <<1>>, <<2>>, <<0>>, <<4>>, <<5>> >>
+  ELSE IF s = 5 THEN << <<0>>, <<1>>, <<2>>, <<3>>, <<1>>, <<4, 5>> >>
+  ELSE IF s = 1 THEN << <<0>>, <<1>>, <<1>>, <<2, 3>>, <<4>>, <<3>> >>
   ELSE IF s = 2 THEN << <<0>>, <<0>>, <<1, 2>>, <<2, 1>>, <<3, 4, 2>>, <<4>> >>
   ELSE << <<0>>, <<1>>, <<0>>, <<3>>, <<2, 4>>, <<5>> >>
-ShapeVh(s) == IF s = 1 THEN {5} ELSE IF s = 2 THEN {5} ELSE {2, 4}
+ShapeVh(s) == IF s = 4 THEN {3, 6} ELSE IF s = 5 THEN {6} ELSE IF s = 1 THEN {5} ELSE IF s = 2 THEN {5} ELSE {2, 4}
 ShapeTs(s) == IF s = 1 THEN <<3, 6, 2, 5, 1, 4>> ELSE IF s = 2 THEN <<1, 2, 3, 4, 5, 6>> ELSE <<6, 5, 4, 3, 2, 1>>
 ShapeG(s) == [c \in 0..6 |-> IF c = 0 THEN <<>> ELSE ShapePar(s)[c]]
 
 Commits(ids) == [t |-> "commits", ids |-> ids]
-(* Small = TRUE: the quick tier's reduced alphabet *)
-Leaves == IF Small THEN {[t |-> "all"], [t |-> "root"], Commits(<<2>>), Commits(<<3, 6>>), Commits(<<4, 5>>)}
+(* Focus = TRUE: generation-bounded ancestors/descendants over MULTI-element *)
+(* root sets that span branches of different depth; Small = TRUE: the quick *)
+(* tier's reduced alphabet                                                  *)
+FocusGens == {<<0, 2>>, <<1, 3>>, <<2, 4>>, <<2, 3>>, <<1, 2>>, <<0, 3>>, <<1, Inf>>}
+Leaves == IF Focus THEN {Commits(<<3, 4>>), Commits(<<1, 4>>), Commits(<<2, 5>>), Commits(<<3, 5>>),
+                         Commits(<<1, 3, 5>>), [t |-> "root"]}
+          ELSE IF Small THEN {[t |-> "all"], [t |-> "root"], Commits(<<2>>), Commits(<<3, 6>>), Commits(<<4, 5>>)}
           ELSE {[t |-> "none"], [t |-> "all"], [t |-> "root"], [t |-> "vheads"],
                 Commits(<<2>>), Commits(<<3, 6>>), Commits(<<4, 5>>), Commits(<<1, 5>>)}
-FewLeaves == IF Small THEN {[t |-> "all"], Commits(<<3, 6>>)}
+FewLeaves == IF Focus THEN {Commits(<<3, 4>>), Commits(<<2, 5>>)} ELSE IF Small THEN {[t |-> "all"], Commits(<<3, 6>>)}
              ELSE {[t |-> "all"], [t |-> "vheads"], Commits(<<3, 6>>), Commits(<<2>>)}
-Gens == IF Small THEN {<<0, Inf>>, <<1, 2>>, <<1, Inf>>}
+Gens == IF Focus THEN FocusGens ELSE IF Small THEN {<<0, Inf>>, <<1, 2>>, <<1, Inf>>}
         ELSE {<<0, Inf>>, <<1, 2>>, <<1, Inf>>, <<0, 2>>, <<2, 3>>}
 PRanges == {<<0, Inf>>, <<0, 1>>}
 
 Unary(x) ==
+  IF Focus THEN
+    {[t |-> "anc", x |-> x, lo |-> gr[1], hi |-> gr[2], plo |-> 0, phi |-> Inf] : gr \in Gens}
+    \cup {[t |-> "desc", x |-> x, lo |-> gr[1], hi |-> gr[2]] : gr \in Gens}
+    \cup {[t |-> "heads", x |-> x]}
+  ELSE
   {[t |-> "anc", x |-> x, lo |-> gr[1], hi |-> gr[2], plo |-> pr[1], phi |-> pr[2]] : gr \in Gens, pr \in PRanges}
   \cup {[t |-> "desc", x |-> x, lo |-> gr[1], hi |-> gr[2]] : gr \in Gens}
   \cup {[t |-> f, x |-> x] : f \in {"heads", "roots", "forkpoint", "mergepoint", "not", "connected"}}
   \cup {[t |-> "latest", x |-> x, n |-> k] : k \in {1, 2}}
 Binary(a, b) ==
+  IF Focus THEN {[t |-> "union", a |-> a, b |-> b]} ELSE
   {[t |-> f, a |-> a, b |-> b] : f \in {"union", "inter", "diff", "coalesce"}}
   \cup {[t |-> "range", r |-> a, h |-> b, lo |-> 0, hi |-> Inf, plo |-> 0, phi |-> Inf],
         [t |-> "dagrange", r |-> a, h |-> b], [t |-> "reachable", s |-> a, d |-> b]}
